@@ -347,3 +347,20 @@ def f8list(a):
 
 def hexlist(a):
     return [float(x).hex() for x in np.asarray(a, dtype="f8").ravel()]
+
+
+# ------------------------------------------------------------------------------------------------
+# reporting: keep the five VIOLATION lines of a run informative (at most two replays per distinct signature)
+
+_sig_count = {}
+
+
+def report(ctx, sig, *args, **kw):
+    """ctx.violation, but after two reports with the same signature further ones are only counted (the run still
+    fails: the first ones are kept).  Known-finding matching is unaffected (it happens inside ctx.violation)."""
+    k = (ctx.prop, ctx.seed, sig)
+    _sig_count[k] = _sig_count.get(k, 0) + 1
+    if _sig_count[k] > 2 and any(v["verdict"] == "violation" for v in ctx.violations):
+        ctx.count(f"further violations of the same kind (not listed): {sig}")
+        return "suppressed"
+    return ctx.violation(*args, **kw)
